@@ -181,6 +181,37 @@ dt_io_find_strpdt(
 	return d;
 }
 
+static const char*
+__name_needle(
+	const char *dflt,
+	const char *const *abbr, const char *const *full, size_t n)
+{
+/* the bytes that names of the current input locale begin with,
+ * in both (ASCII) cases as the parser does not mind the case;
+ * for the built-in names that is just DFLT */
+	static char ndl[4U * (GREG_MONTHS_P_YEAR + 1U) + 1U];
+	const char *const *const tbl[] = {abbr, full};
+	size_t k = 0U;
+
+	for (size_t j = 0U; j < countof(tbl); j++) {
+		for (size_t i = 1U; i < n && k + 2U < sizeof(ndl); i++) {
+			const char c = tbl[j][i][0U];
+
+			if ((c >= 'A' && c <= 'Z') || (c >= 'a' && c <= 'z')) {
+				ndl[k++] = (char)(c & ~0x20);
+				ndl[k++] = (char)(c | 0x20);
+			} else if (c) {
+				ndl[k++] = c;
+			}
+		}
+	}
+	if (UNLIKELY(!k)) {
+		return dflt;
+	}
+	ndl[k] = '\0';
+	return ndl;
+}
+
 struct dt_dt_s
 dt_io_find_strpdt2(
 	const char *str, size_t len,
@@ -247,10 +278,14 @@ dt_io_find_strpdt2(
 			static const char p_needle[] = "APap";
 
 		case GRPATM_A_SPEC:
-			ndl = a_needle;
+			ndl = __name_needle(
+				a_needle, dut_abbr_wday, dut_long_wday,
+				dut_nabbr_wday);
 			break;
 		case GRPATM_B_SPEC:
-			ndl = b_needle;
+			ndl = __name_needle(
+				b_needle, dut_abbr_mon, dut_long_mon,
+				dut_nabbr_mon);
 			break;
 		case GRPATM_TA_SPEC:
 			ndl = ta_needle;
